@@ -77,3 +77,8 @@ Definition watcher_reloaded_wf (f : fn_def) : bool :=
 Lemma watcher_starts_at_the_current_id :
   watcher_new_wf ReloadWatcherInner_new = true /\ watcher_reloaded_wf ReloadWatcher_reloaded = true.
 Proof. vm_compute. split; reflexivity. Qed.
+
+(* serializing a handle walks the value under the read guard (the guard lives to the end of the call) *)
+Lemma serialize_reads_under_the_guard :
+  fn_body Handle_serialize = [EMethod (EMethod (EPath ["self"]) "read" []) "serialize" [EPath ["s"]]].
+Proof. vm_compute. reflexivity. Qed.
